@@ -288,6 +288,7 @@ for _p, _t in _EXTRA7.items():
 
 _EXTRA8 = {
  "C01": " Eighth round: (R-TXN-13) a restore point is total: header and records are saved together and put back together, no condition decides about one half; (R-TXN-14) only Commit / Rollback remove the mark of an uncommitted change; R-CLEAN-2 / R-CLEAN-6 registered (a failed COMMIT leaves no created table behind).",
+ "C04": " Eighth round: R-KEY-3 now requires that a float without a fractional part is written with the key of the integer it equals (test f == math.Trunc(f) or a verified helper) — genuine defect repaired: 1.0 and 1 (0.0, -0.0, 0) fell into different GROUP BY / DISTINCT / UNION buckets; the rule had frozen the defective float rung.",
  "C05": " Eighth round: (R-TXN-13); R-ISO-1 / R-ISO-2 registered (UPDATE / DELETE never shift the records of the cached table in place).",
  "C08": " Eighth round: R-ERR-14 / R-TXN-4 registered (a result published before its check stays behind when the check fails).",
  "C10": " Eighth round: R-LOCK-1 / R-LOCK-4 registered (the temp file COMMIT encodes into is created exclusively and only under the lock of its table).",
